@@ -18,12 +18,12 @@ Print Assumptions C04_descent.
    row stored under that rowid if present, "not found" and no error if
    absent - for every rowid (any Z, in particular all of int64) and every
    depth the code accepts *)
-Theorem C04_lookup : forall pg U npages root rowid p l,
-  open_table _ (openp pg U) root = Ok p ->
-  tflat _ (openp pg U) max_recursion p = (l, None) ->
+Theorem C04_lookup : forall pg op npages root rowid p l,
+  open_table _ op root = Ok p ->
+  tflat _ op max_recursion p = (l, None) ->
   StronglySorted Z.lt (map fst l) ->
-  sep_ok cell_payload (openp pg U) rowid max_recursion p ->
-  table_rowid pg U npages root rowid =
+  sep_ok cell_payload op rowid max_recursion p ->
+  table_rowid pg op npages root rowid =
   match lookup_pl rowid l with
   | None => Ok None
   | Some (_, pl) => do rec <- load pg npages pl; Ok (Some rec)
